@@ -447,7 +447,7 @@ use crate::local::local_span_stack::verif_harness as stk;
 #[kani::unwind(3)]
 fn sp_guard_drop_pushes_local_spans() {
     env();
-    let item = any_item(true);
+    let item = any_item(kani::any());
     let id: u64 = kani::any();
     let span = mk_span(id, 5, vec![item], None);
     let stack = Rc::new(RefCell::new(LocalSpanStack::with_capacity(4)));
@@ -459,13 +459,18 @@ fn sp_guard_drop_pushes_local_spans() {
     drop(g);
     let t_end = unsafe { fastant::CLOCK };
     assert!(stk::depth(&stack.borrow()) == 0, "dropping the guard did not close the scope");
-    assert!(gc::nlog() == 1, "closing a local-parent scope must hand over exactly one local span set");
-    let s = gc::log(0);
-    assert!(s.kind == 3 && s.set_kind == 1, "not a SubmitSpans(LocalSpansInner)");
-    assert!(s.ntok == 1 && s.tok0 == Some(issued(&item, id)), "local spans submitted under a different parent");
-    assert!(s.nspans == 0 && s.end_time == t_end);
+    if item.is_sampled {
+        assert!(gc::nlog() == 1, "closing a local-parent scope must hand over exactly one local span set");
+        let s = gc::log(0);
+        assert!(s.kind == 3 && s.set_kind == 1, "not a SubmitSpans(LocalSpansInner)");
+        assert!(s.ntok == 1 && s.tok0 == Some(issued(&item, id)), "local spans submitted under a different parent");
+        assert!(s.nspans == 0 && s.end_time == t_end);
+    } else {
+        assert!(gc::nlog() == 0, "a scope of an unsampled trace handed something to the collector");
+    }
     std::mem::forget((span, stack));
-    kani::cover!(true);
+    kani::cover!(item.is_sampled);
+    kani::cover!(!item.is_sampled);
 }
 
 // C07 / C09: set_local_parent when the thread's scope limit is reached returns a guard whose drop
